@@ -41,6 +41,7 @@ def gen_workload(rng, profile="c06"):
     pdep = rng.choice([0.15, 0.3, 0.5, 0.8])
     pmark = rng.choice([0.0, 0.0, 0.1, 0.25])
     pcopy = rng.choice([0.0, 0.1, 0.2, 0.35]) if profile != "c04" else rng.choice([0.0, 0.15, 0.3])
+    padopt = rng.choice([0.0, 0.0, 0.15, 0.3])
     if profile == "c07":
         pfail, pdep = rng.choice([0.2, 0.35, 0.5]), rng.choice([0.4, 0.6, 0.8])
     jobs = []
@@ -77,7 +78,13 @@ def gen_workload(rng, profile="c06"):
         ident = spec["copy_of"] if spec.get("copy_of") is not None else j
         marker = rng.random() < pmark or any(x["marker"] for i, x in enumerate(jobs)
                                              if (x["copy_of"] if x.get("copy_of") is not None else i) == ident)
-        spec.update(toks=toks, code=1 if rng.random() < pfail else 0, marker=marker)
+        # a process of an earlier run may still be running for this job (never for a copy): exit code
+        # retrievable or not, marker written or not when it ends (a marker that pre-exists stays)
+        adopt = None
+        if spec.get("copy_of") is None and rng.random() < padopt:
+            code = rng.choice([None, None, 0, 1])
+            adopt = dict(code=code, done=marker or (rng.random() < (0.8 if code == 0 else 0.35)))
+        spec.update(toks=toks, code=1 if rng.random() < pfail else 0, marker=marker, adopt=adopt)
         jobs.append(spec)
     return dict(tokens=tokens, jobs=jobs, seed=rng.randrange(1 << 30), pbatch=rng.choice([0.0, 0.15, 0.4]),
                 pwait=rng.choice([0.0, 0.05, 0.15]))
@@ -154,21 +161,29 @@ def oracle_c06(w, trace, report):
                 report(f"C06:final-state-changed:{final[j]}->{o['state']}",
                        f"job {j} was {final[j]} and is {o['state']} after step {si}")
                 final[j] = o["state"]
-            if final[j] is None and o["state"] in ("DONE", "ERROR"):
+            # (while the process left by an earlier run is still running, job.state is not final yet: a
+            #  failed dependency may show ERROR there before the process ends)
+            if final[j] is None and o["state"] in ("DONE", "ERROR") and not (spec.get("adopt") and o["result"] is None):
                 final[j] = o["state"]
             # truthful, and what waiting on the job returns
+            ad = spec.get("adopt")
             if o["result"] is not None:
                 if o["result"] not in ("DONE", "ERROR"):
                     report(f"C06:wait-returns-nonfinal:{o['result']}", f"job {j}: job.wait() = {o['result']}")
                 else:
-                    should = "DONE" if (spec["marker"] or (o["launches"] >= 1 and spec["code"] == 0)) else "ERROR"
+                    if ad:      # the process of an earlier run decides: exit code 0, or marker written
+                        should = "DONE" if (ad["code"] == 0 or ad["done"]) else "ERROR"
+                    else:
+                        should = "DONE" if (spec["marker"] or (o["launches"] >= 1 and spec["code"] == 0)) else "ERROR"
                     if o["result"] != should:
-                        report(f"C06:final-untruthful:{should}-reported-{o['result']}",
-                               f"job {j}: marker={spec['marker']} launches={o['launches']} code={spec['code']} "
+                        report(f"C06:final-untruthful:{should}-reported-{o['result']}" + (":adopted-process" if ad else ""),
+                               f"job {j}: marker={spec['marker']} adopted={ad} launches={o['launches']} code={spec['code']} "
                                f"but job.wait() = {o['result']}")
                 if o["state"] != o["result"]:
                     report(f"C06:state-differs-from-wait:{o['result']}->{o['state']}",
                            f"job {j}: job.wait() = {o['result']}, job.state = {o['state']}")
+            if ad and o["launches"] > 0:
+                report("C06:adopted-job-relaunched", f"job {j} has a running process of an earlier run and was launched again")
             if o["launches"] > 1:
                 report("C06:launched-twice", f"job {j} launched {o['launches']} times")
         if sn["unfinished"] < 0:
@@ -272,7 +287,8 @@ def effective_failed_ancestor(w, trace, res, j, memo):
         return memo[j]
     memo[j] = False
     for k in registered_upstream(trace, j):
-        if res[k] == "ERROR" or (not w["jobs"][k]["marker"] and effective_failed_ancestor(w, trace, res, k, memo)):
+        cut = w["jobs"][k]["marker"] or w["jobs"][k].get("adopt")
+        if res[k] == "ERROR" or (not cut and effective_failed_ancestor(w, trace, res, k, memo)):
             memo[j] = True
     return memo[j]
 
@@ -289,15 +305,15 @@ def oracle_c07(w, trace, report):
             continue
         spec = w["jobs"][j]
         ups = registered_upstream(trace, j)
-        if spec["marker"]:
-            continue
+        if spec["marker"] or spec.get("adopt"):
+            continue                 # decided by an earlier run (marker) or by the process it left running
         if effective_failed_ancestor(w, trace, res, j, memo):
             if o["launches"] > 0:
                 report("C07:launched-despite-failed-ancestor", f"job {j} was launched; an ancestor ended ERROR")
             if o["result"] is not None and (o["result"] != "ERROR" or o["failure"] != "DEPENDENCY"):
                 report(f"C07:dependent-not-cancelled:{o['result']}:{o['failure']}",
                        f"job {j} has a failed ancestor and ended {o['result']} / {o['failure']}")
-        elif o["result"] is not None and all(res[k] == "DONE" for k in ups):
+        elif o["result"] is not None and all(res[k] == "DONE" for k in ups) and not any(w["jobs"][k].get("adopt") for k in ups):
             should = "DONE" if spec["code"] == 0 else "ERROR"
             if o["launches"] != 1 or o["result"] != should:
                 report(f"C07:independent-affected:{should}-got-{o['result']}-launches-{o['launches']}",
@@ -313,7 +329,10 @@ def oracle_c07(w, trace, report):
         for j, o in enumerate(sn["jobs"]):
             if o is None or not o["registered"] or o["result"] is not None:
                 continue
-            if effective_failed_ancestor(w, trace, res_now, j, memo_now):
+            if w["jobs"][j].get("adopt"):
+                report(f"C07:job-not-completed-at-rest:{o['state']}:adopted-process",
+                       f"after step {si} nothing is pending; job {j} (process of an earlier run has ended) is {o['state']} for ever")
+            elif effective_failed_ancestor(w, trace, res_now, j, memo_now):
                 report(f"C07:dependent-of-failed-job-not-cancelled-at-rest:{o['state']}",
                        f"after step {si} nothing is pending; job {j} has a failed ancestor and is {o['state']} for ever")
             else:
@@ -334,7 +353,7 @@ def oracle_c07(w, trace, report):
             if not allfinal:
                 running = [j for j, o in enumerate(sn["jobs"]) if o is not None and o["registered"] and o["result"] is None]
                 report("C07:experiment-left-before-jobs-completed",
-                       f"{s['act'][0]}() completed ({sn['wait']}) while jobs {running} had not run to completion")
+                       f"leaving / waiting on the experiment completed ({sn['wait']}) while jobs {running} had not run to completion")
             if sn["wait"] == "raised" and not anyerr and allfinal:
                 report("C07:failure-reported-without-failed-job", "FailedExperiment raised, no job ended ERROR")
             if sn["wait"] == "returned" and anyerr:
@@ -356,7 +375,7 @@ def idents(w):
     return [(spec["copy_of"] if spec.get("copy_of") is not None else j) for j, spec in enumerate(w["jobs"])]
 
 
-OPK = {"lockin": "OLockIn", "lockout": "OLockOut", "proc": "OProc", "doneh": "ODoneH"}
+OPK = {"lockin": "OLockIn", "lockout": "OLockOut", "proc": "OProc", "doneh": "ODoneH", "adopt": "OAdopt"}
 WOBS = {"none": "ONone", "blocked": "OBlocked", "returned": "OReturned", "raised": "ORaised"}
 
 
@@ -394,13 +413,19 @@ def renderable(w, trace):
     return True
 
 
+def g_adopt(a):
+    if not a:
+        return "None"
+    return f"(Some ({gopt(a['code'], gz)}, {gbool(a['done'])}))"
+
+
 def g_case(w, trace, fx):
     ids = idents(w)
     jobs = []
     for j, spec in enumerate(w["jobs"]):
         deps = trace["deps"][j] or []
         jobs.append(f"{{| j_deps := {glist(g_dep(d) for d in deps)}; j_code := {gz(spec['code'])}; "
-                    f"j_marker := {gbool(spec['marker'])}; j_ident := {ids[j]}%nat |}}")
+                    f"j_marker := {gbool(spec['marker'])}; j_ident := {ids[j]}%nat; j_adopt := {g_adopt(spec.get('adopt'))} |}}")
     W = f"{{| w_jobs := {glist(jobs)}; w_tokens := {glist(str(t) + '%nat' for t in w['tokens'])} |}}"
     F = f"{{| fx2 := {gbool(fx[0])}; fx3 := {gbool(fx[1])}; fx4 := {gbool(fx[2])} |}}"
     tr = glist(f"({g_action(s['act'])}, {g_snap(s['snap'])})" for s in trace["steps"])
@@ -427,7 +452,7 @@ def probe_fixes(traces3):
 def sample(w, trace):
     sn = last_snap(trace)
     return dict(tokens=w["tokens"], jobs=[dict(deps=trace["deps"][j], toks=s["toks"], code=s["code"], marker=s["marker"],
-                                                copy_of=s.get("copy_of")) for j, s in enumerate(w["jobs"])],
+                                                copy_of=s.get("copy_of"), adopt=s.get("adopt")) for j, s in enumerate(w["jobs"])],
                 schedule=[s["act"] for s in trace["steps"]][:12],
                 final=None if sn is None else [None if o is None else [o["state"], o["result"], o["launches"]] for o in sn["jobs"]],
                 wait=None if sn is None else sn["wait"])
@@ -491,6 +516,8 @@ def run_sched_check(c, profile, oracles, n_quick, n_thorough, golden_name, rule,
             c.count("exit:" + ("0" if spec["code"] == 0 else "nonzero"))
             if spec["marker"]:
                 c.count("marker")
+            if spec.get("adopt"):
+                c.count("adopted-process:code=" + str(spec["adopt"]["code"]) + ":done=" + str(spec["adopt"]["done"]))
             if spec.get("copy_of") is not None:
                 c.count("copy:" + ("duplicate" if t["dup"][j] is not None else "resubmission" if t["deps"][j] is not None else "unsubmitted"))
             for (k, how) in spec["embed"]:
